@@ -55,6 +55,11 @@ claimed = {
    technique='stateless model checking of the real daemon under a controlled scheduler with virtual contexts: delay-bounded DFS with a happens-before state cache; map iteration order of the worker map is an explorer-owned choice',
    text='14 scenarios (3 workers with orders incl. ties/negatives/gaps registered before Start, workers added while running, BackgroundWorker racing ShutdownAndWait, early-exiting worker and re-registration of its name, duplicate running name, two ShutdownAndWait callers, Shutdown()+ShutdownAndWait, Run+shutdown, equal-order workers that only return after each other saw the cancellation, a lower-order worker that exits by itself on ContextStopped) are explored with at most 3 (quick) / 4 (thorough) deviations. Oracle on the recorded log: a still-running worker is cancelled only after every started worker of higher order has returned; ShutdownAndWait/Run return only after all started workers returned; nothing starts afterwards; error identities; no deadlock, no panic.',
    note='Trusted: vcontext fidelity; cancelling an already returned worker is not judged. One genuine defect repaired (fix: commit).', ref='2 C20'),
+
+ 'C12': dict(cat='model_checking', engine='H',
+   technique='explicit-state search over operation histories of each real container against its abstract model (BFS with state merging to the fixpoint where the model state is canonical, depth-bounded DFS otherwise)',
+   text='29 systems: ShrinkingMap (5 shrink-threshold settings), RandomMap, ds and timed PriorityQueue (ascending/descending, removal handles), Queue/RingBuffer/BytesFilter (capacities 1-3), Stack (both flavours), Walker (revisit on/off), TimeHeap (virtual clock), IndexedStorage, OnChangeMap (callbacks on/off, failing), SubscriptionManager (limits 0/2/3, 2 clients x 3 topics). Every history over a small universe is applied to the real object and to the model; all return values, all read-only probes, and every emitted callback/event are compared after every step; random picks are checked for membership and distinctness.',
+   note='Trusted: the abstract models written for this check. Four genuine defects repaired (fix: commits in ds/walker, ds/timeheap, web/subscriptionmanager).', ref='2 C12'),
 }
 na_reason = 'check not built yet in this round (engine exists; see DESIGN.md section 9 for the order of work)'
 checks = []
